@@ -159,6 +159,10 @@ def strategy_(draw, tier):
     if su2:
         sites = draw(gen.sites_st(max_modes=mm, max_sites=3, spins=(2,), orbitals=(1, 2, 3)))
         terms = draw(gen.terms_st(sites, cplx, min_pieces=1, max_pieces=4, preset_share=1.0, presets=SU2_PRESETS))
+    elif draw(st.integers(0, 59)) == 0:
+        # wide shells (d- and f-like sites): orbital indices 3..7, up to 10 modes (rare: a 1024 x 1024 matrix per case)
+        sites = draw(gen.sites_st(max_modes=10, max_sites=2, spins=(2, 1), orbitals=(5, 4, 6, 7, 8)))
+        terms = draw(gen.terms_st(sites, cplx, min_pieces=1, max_pieces=4, preset_share=0.6))
     else:
         sites = draw(gen.sites_st(max_modes=mm, max_sites=3))
         terms = draw(gen.terms_st(sites, cplx, min_pieces=1, max_pieces=5, preset_share=0.75))
@@ -200,7 +204,9 @@ def execute(case, ctx):
             return fail("'%s' threw: %s" % (run.sc.lines[ln - 1][:120], a["exc"]), "exc:%s" % run.sc.lines[ln - 1].split()[0])
     tab = run.table()
     if not run.tab_ok:
-        return Result("ok", classes + ["bad-index-table"], False)
+        # the modes the terms were put on are not the modes of the lattice (two (site, orbital, spin) triples share an index or one is
+        # missing): whatever matrix was built, it is not the documented operator on the documented modes
+        return fail("the single-particle index table is not a bijection onto the (site, orbital, spin) triples of the lattice: %r" % (tab,), "index-table")
     B = Blocks(run)
     if B.nb != 1 or not B.consistent():
         return fail("symmetries ignored but %d blocks" % B.nb, "blocks")
